@@ -198,7 +198,7 @@ func runC08(w *W) {
 		rr := r.Split()
 		valid = append(valid, string(gen.Doc(rr, gen.DocCfg{Size: []int{20, 100, 500}[k%3], MaxDepth: 3, MaxFan: 5, WS: k % 2, Esc: 40, NoLF: true, DupKeys: true})))
 	}
-	nSeq := 30000
+	nSeq := 120000
 	if th {
 		nSeq = 1500000
 	}
